@@ -52,6 +52,20 @@ class MoveAxisOperator(AbstractLinearOperator):
             destination = (destination,)
         elif not isinstance(destination, tuple):
             destination = cast(tuple[int], tuple(destination))
+        if len(source) != len(destination):
+            raise ValueError(
+                f'the source {source} and destination {destination} axes should have the same length.'
+            )
+        for leaf in jax.tree.leaves(in_structure):
+            for name, axes in (('source', source), ('destination', destination)):
+                if any(not -leaf.ndim <= axis < leaf.ndim for axis in axes):
+                    raise ValueError(
+                        f'{name} axes {axes} are out of bounds for leaf of shape {leaf.shape}.'
+                    )
+                if len({axis % leaf.ndim for axis in axes}) != len(axes):
+                    raise ValueError(
+                        f'repeated axis in {name} axes {axes} for leaf of shape {leaf.shape}.'
+                    )
         self.source = source
         self.destination = destination
         self._in_structure = in_structure
